@@ -1,11 +1,13 @@
 #!/usr/bin/env python3
 import json, sys
 pid = sys.argv[1]
+tag = sys.argv[2] if len(sys.argv) > 2 else ''
+avoid = sys.argv[3] if len(sys.argv) > 3 else ''
 for l in open('/verif/properties.jsonl'):
     p = json.loads(l)
     if p['id'] == pid:
         break
-print(f"""You are testing how good a verification suite is, by writing a realistic subtle bug. You are given ONE semantic property of an embedded Rust graph database (nervusdb) and a scratch git worktree of its source at /tmp/seed/{pid} (work only there; do not look at or touch /verif or /repo or other directories under /tmp; no network; cargo works offline: always pass `--offline`, and ALWAYS run cargo with the environment variable CARGO_TARGET_DIR=/tmp/seed/target_{pid} (your private build directory; never use another one, never create a target/ directory inside your worktree; do not use `git stash` — stashes are shared between worktrees: use `git diff > file; git checkout -- .; git apply file`); the machine is shared and loaded, so build and test only the crates you need: `cargo test -p <crate> --offline`, never the whole workspace unless needed).
+print(f"""You are testing how good a verification suite is, by writing a realistic subtle bug. You are given ONE semantic property of an embedded Rust graph database (nervusdb) and a scratch git worktree of its source at /tmp/seed/{pid}{tag} (work only there; do not look at or touch /verif or /repo or other directories under /tmp; no network; cargo works offline: always pass `--offline`, and ALWAYS run cargo with the environment variable CARGO_TARGET_DIR=/tmp/seed/target_{pid}{tag} (your private build directory; never use another one, never create a target/ directory inside your worktree; do not use `git stash` — stashes are shared between worktrees: use `git diff > file; git checkout -- .; git apply file`); the machine is shared and loaded, so build and test only the crates you need: `cargo test -p <crate> --offline`, never the whole workspace unless needed).
 
 PROPERTY ({pid} — {p['title']}):
 "{p['statement']}"
@@ -14,8 +16,8 @@ Code anchors: {', '.join(p['anchors']['files'])}
 
 TASK: produce a change to the source that BREAKS this property while the workspace still compiles and the existing tests still pass (run the tests of every crate you touched, plus the integration tests of crate `nervusdb` that exercise the area; note: the test `t341_resource_limits::test_default_limits_keep_tck_sum_range_case_working` and the `tck_harness` target fail/flake on the untouched tree too — ignore those). The change must look like a plausible refactor / optimisation / bug a maintainer could write, and must need something SPECIFIC to manifest: a particular interleaving, a crash or fault at a particular point, a multi-step sequence of operations, an unusual input, or two cooperating sites that each look fine alone — not something ordinary use exposes at once. Do not make it trivially detectable. The source may already contain `#[cfg(nervusdb_verif)]` instrumentation hooks: leave them alone and do not rely on them.
 
-DELIVER in /tmp/seed/{pid}/_seed/ :
+DELIVER in /tmp/seed/{pid}{tag}/_seed/ :
   patch.diff — `git diff` of your change against HEAD (source files only, no tests)
   demo — a small Rust integration test file (say in meta.json where to drop it, e.g. nervusdb/tests/seed_{pid.lower()}.rs) or small program that FAILS with the change and PASSES without it, demonstrating the property violation concretely
   meta.json — {{"property":"{pid}","what":"<one paragraph>","needs":"<what it needs in order to manifest>","demo_path":"<where the demo goes and how to run it>","ran":["<commands you ran and their outcome>"]}}
-Verify yourself: with the patch applied the demo fails and the existing tests you ran pass; with the patch reverted the demo passes. At the end leave the worktree with the patch NOT applied (`git checkout -- .`; only the untracked _seed/ directory remains) and delete your build directory (`rm -rf /tmp/seed/target_{pid}`). Report briefly what you did.""")
+Verify yourself: with the patch applied the demo fails and the existing tests you ran pass; with the patch reverted the demo passes. At the end leave the worktree with the patch NOT applied (`git checkout -- .`; only the untracked _seed/ directory remains) and delete your build directory (`rm -rf /tmp/seed/target_{pid}{tag}`). Report briefly what you did.""" + (f"\n\nAVOID: an earlier worker already produced this kind of change for the same property, so yours must be a clearly DIFFERENT defect in a different code path / mechanism: {avoid}" if avoid else ""))
